@@ -69,6 +69,8 @@ namespace irx {
     std::vector<Obj> snap_objs; std::vector<Frame> snap_stack; size_t snap_terms = 0; std::vector<Input> snap_inputs; std::vector<z3::expr> snap_pc; std::vector<HostStream> snap_hs; long snap_insts = 0;
     std::set<std::string> unknown_externals;
     long emitted = 0;
+    // cooperative threads (irx_spawn / irx_yield): parked stacks of the threads that are not running
+    std::vector<std::vector<Frame>> tstacks; std::vector<char> tdone, twait; std::vector<Val> tblock; int tcur = 0; long switches = 0; // tblock[i]: address of an int the thread waits on (runnable when it reads 0)
     long path_unknowns = 0; // solver 'unknown' answers on the current path (=> the path may be infeasible)
     std::map<std::string, int> emitted_by_msg;
 
